@@ -218,6 +218,12 @@ UnsupportedTypeSets == {
    <<TItem, TMyErr, TColor, RawT("Hostile", "type Hostile struct {\n\tV Pair[string, Item] `json:\"v\"`\n}\n\ntype Pair[K comparable, V any] struct {\n\tKey K `json:\"key\"`\n\tVal V `json:\"val\"`\n}")>>,
    <<TItem, TMyErr, TColor, RawT("Hostile", "type Hostile struct {\n\tV Gen[string] `json:\"v\"`\n}\n\ntype Gen[T any] struct {\n\thidden int\n\tSkip string `json:\"-\"`\n\tValue T `json:\"value\"`\n\tMore []T `json:\"more\"`\n}")>>,
    <<TItem, TMyErr, TColor, RawT("Hostile", "type Hostile struct {\n\tV Gen[Item, int] `json:\"v\"`\n}\n\ntype Gen[A any, B any] struct {\n\tFirst A `json:\"first\"`\n\tsecret B\n\tSecond B `json:\"second\"`\n}")>>,
+   \* type parameters constrained by a DECLARED type (an interface with a type set; a struct met before / after its use)
+   <<TItem, TMyErr, TColor, RawT("Hostile", "type Hostile struct {\n\tV Box[int] `json:\"v\"`\n}\n\ntype Number interface {\n\t~int | ~float64\n}\n\ntype Box[T Number] struct {\n\tValue T `json:\"value\"`\n}")>>,
+   <<TItem, TMyErr, TColor, RawT("Hostile", "type Hostile struct {\n\tB Box[Item] `json:\"b\"`\n\tL Item `json:\"l\"`\n}\n\ntype Box[T Item] struct {\n\tValue T `json:\"value\"`\n}")>>,
+   <<TItem, TMyErr, TColor, RawT("Hostile", "type Hostile struct {\n\tL Item `json:\"l\"`\n\tB Box[Item] `json:\"b\"`\n}\n\ntype Box[T Item] struct {\n\tValue T `json:\"value\"`\n}")>>,
+   <<TItem, TMyErr, TColor, RawT("Hostile", "type Hostile struct {\n\tV Box[string] `json:\"v\"`\n}\n\ntype Box[T interface{ ~string }] struct {\n\tValue T `json:\"value\"`\n}")>>,
+   <<TItem, TMyErr, TColor, RawT("Hostile", "type Hostile struct {\n\tV Box[Color] `json:\"v\"`\n}\n\ntype Box[T comparable] struct {\n\tValue T `json:\"value\"`\n}")>>,
    <<TItem, TMyErr, TColor, RawT("Hostile", "type Hostile = Item")>>,
    <<TItem, TMyErr, TColor, RawT("Hostile", "type Hostile uint8\n\nconst (\n\tHA Hostile = iota\n\tHB\n\tHC = HB << 2\n)")>> }
 CfgsC14 == { Cfg(en, v, FALSE, NoSec, <<"s1">>) : en \in {"gin", "fiber"}, v \in {"3.0.0", "3.1.0"} }
